@@ -85,6 +85,16 @@ func checkC13(e *Env) {
 		}
 		keyCompareOperands(e, mp)
 	}
+	// (f) a string item is accepted only if head + content end before len(input)
+	// (content of exactly len(input)-1-head bytes): "<" on the sum, not "<="
+	if ts := e.fn("internal/cbor.textOrByteStringDeterministic"); ts != nil {
+		tU := "call:cbor.unsignedIntegerDeterministic(param:input)"
+		e.requireGates("GATE", ts, gate.Outcome{Kind: gate.ErrNil, Idx: 1}, noCfg,
+			gate.CallOK("S.head", "cbor.unsignedIntegerDeterministic", "param:input"),
+			gate.Cmp("S.length-in-input", tU+"#1", token.LSS, "conv(len(param:input))"),
+			gate.Cmp("S.end-in-input", "("+tU+"#0 + conv("+tU+"#1))", token.LSS, "len(param:input)"))
+		e.requireResult("RESULT", ts, gate.Outcome{Kind: gate.ErrNil, Idx: 1}, 0, "("+tU+"#0 + conv("+tU+"#1))", "head length + declared content length")
+	}
 	e.R.Floor("TABLE", 40)
 	e.R.Floor("FORALL", 6)
 	e.R.Floor("PROGRESS", 4)
